@@ -77,7 +77,10 @@ func (s *jobSnapshot) addSourceRunnerSnapshot(ckpt *jobpb.SourceRunnerCheckpoint
 		return fmt.Errorf("received source runner checkpoint with unknown id id=%s, expectedIDs=%v", ckpt.SourceRunnerId, ids)
 	}
 	if wasCompleted {
+		// Ignore the duplicate: recording it again would publish its split
+		// states twice.
 		slog.Warn("received another source runner checkpoint from same id", "id", ckpt.SourceRunnerId)
+		return nil
 	}
 
 	s.sourceRunnerIDsComplete[ckpt.SourceRunnerId] = true
